@@ -28,6 +28,8 @@ import (
 	"testing"
 	"time"
 
+	"github.com/mgtv-tech/redis-GunYu/config"
+	"github.com/mgtv-tech/redis-GunYu/pkg/redis/client/conn"
 	"github.com/mgtv-tech/redis-GunYu/pkg/redis/client/proto"
 	"github.com/mgtv-tech/redis-GunYu/pkg/vfutil"
 )
@@ -231,9 +233,11 @@ func (f *vf12FragReader) Read(p []byte) (int, error) {
 }
 
 type vf12Dec struct {
-	cmd  string
-	args [][]byte
-	off  int64 // startOffset + incrOffset
+	cmd      string
+	args     [][]byte
+	off      int64 // startOffset + incrOffset
+	consumed int64 // bytes of the stream really taken from the reader when the command was returned (independent of d.offset)
+	inline   bool  // the command did not start with a RESP type byte (inline command: outside C12's quantifier)
 }
 
 func vf12ErrClass(err error) string {
@@ -265,11 +269,20 @@ func vf12Run(data []byte, start, preset int64, bufSize, frag int, fseed uint64) 
 	if preset != 0 {
 		d.offset = preset
 	}
+	prev := 0
 	for {
 		resp, incr, err := MustDecodeOpt(d)
 		if err != nil {
 			return out, vf12ErrClass(err)
 		}
+		// what was really consumed: handed out by the reader minus what still sits in bufio
+		cons := fr.pos - d.r.Buffered()
+		p := prev
+		for p < len(data) && data[p] == '\n' {
+			p++
+		}
+		inline := p < len(data) && !strings.ContainsRune("+-:$*", rune(data[p]))
+		prev = cons
 		cmd, args, err := ParseArgs(resp)
 		if err != nil {
 			return out, "parse"
@@ -277,7 +290,7 @@ func vf12Run(data []byte, start, preset int64, bufSize, frag int, fseed uint64) 
 		// keep the decoder's own slices, exactly as parseAofCommand does (the commands wait in
 		// sendBuf / the batch queue while the parser decodes on): an argument must still hold
 		// its bytes when the whole stream has been decoded, not only right after its decode
-		out = append(out, vf12Dec{cmd, args, start + incr})
+		out = append(out, vf12Dec{cmd, args, start + incr, int64(cons), inline})
 	}
 }
 
@@ -287,6 +300,27 @@ func vf12Lines(idx int, out []vf12Dec, errClass string) []string {
 		ls = append(ls, fmt.Sprintf("#%d c %s %s @%d", idx, vf12Render([]byte(c.cmd)), vf12RenderList(c.args), c.off))
 	}
 	return append(ls, fmt.Sprintf("#%d e %s", idx, errClass))
+}
+
+// vf12LinesX renders a stream outside the property's quantifier (`decx` op): the commands decoded
+// before the decoder stops, offsets only as long as no inline command was met, and `e stop` for
+// every error class — so that repairing how inline commands are counted, or reclassifying an
+// error on a malformed stream, is not reported against C12.
+func vf12LinesX(idx int, out []vf12Dec, errClass string) []string {
+	ls := make([]string, 0, len(out)+1)
+	tainted := false
+	for _, c := range out {
+		tainted = tainted || c.inline
+		if tainted {
+			ls = append(ls, fmt.Sprintf("#%d c %s %s @~", idx, vf12Render([]byte(c.cmd)), vf12RenderList(c.args)))
+		} else {
+			ls = append(ls, fmt.Sprintf("#%d c %s %s @%d", idx, vf12Render([]byte(c.cmd)), vf12RenderList(c.args), c.off))
+		}
+	}
+	if errClass == "panic" {
+		return append(ls, fmt.Sprintf("#%d e panic", idx))
+	}
+	return append(ls, fmt.Sprintf("#%d e stop", idx))
 }
 
 var vf12BufSizes = []int{16, 17, 31, 64, 100, 512, 4096, 65536, 1 << 20}
@@ -371,7 +405,7 @@ func (x *vf12T) streamP(src string, start, preset int64, b *vf12Buf, want [][][]
 			}
 		}
 	}
-	var first []string
+	var first, firstOut []string
 	var opLine string
 	for c := 0; c < nconf; c++ {
 		bs := vfutil.Pick(x.r, vf12BufSizes)
@@ -381,12 +415,46 @@ func (x *vf12T) streamP(src string, start, preset int64, b *vf12Buf, want [][][]
 		}
 		fseed := x.r.U64() % 1000000
 		out, ec := vf12Run(data, start, preset, bs, fk, fseed)
-		lines := vf12Lines(x.idx, out, ec)
-		line := fmt.Sprintf("dec %d %d %d %d %d %d %s", x.idx, start, preset, bs, fk, fseed, pieces)
+		lines := vf12Lines(x.idx, out, ec) // exact, compared between configurations of the same code
+		opName := "dec"
+		if !sok {
+			opName = "decx" // outside the quantifier: compared with the model coarsely
+		}
+		line := fmt.Sprintf("%s %d %d %d %d %d %d %s", opName, x.idx, start, preset, bs, fk, fseed, pieces)
 		s.Count(fmt.Sprintf("bufio_%d", bs))
 		s.Count(fmt.Sprintf("frag_%d", fk))
+		// offset == bytes really consumed, for every command returned on ANY stream before the
+		// first inline command (canonical or not): the counter against the reader, no oracle needed
+		tainted := false
+		for i, c := range out {
+			if c.inline && !tainted {
+				switch c.off - (start + preset + c.consumed) {
+				case 1:
+					s.Count("observation_inline_first_byte_counted_twice")
+				case 0:
+					s.Count("observation_inline_offset_exact")
+				default:
+					s.Count("observation_inline_offset_other")
+				}
+			}
+			tainted = tainted || c.inline
+			if !tainted && c.off != start+preset+c.consumed {
+				m := vf12Replay(line)
+				m["command_index"] = i
+				m["got_offset"] = c.off
+				m["want_offset"] = start + preset + c.consumed
+				m["source"] = src
+				s.Violate("offset-not-bytes-consumed", fmt.Sprintf("cmd %d: offset %d, but start %d + decoder offset before %d + bytes taken from the reader %d = %d",
+					i, c.off, start, preset, c.consumed, start+preset+c.consumed), m)
+			}
+		}
 		if c == 0 {
 			first, opLine = lines, line
+			if sok {
+				firstOut = lines
+			} else {
+				firstOut = vf12LinesX(x.idx, out, ec)
+			}
 			s.Count("end_" + ec)
 			s.Add("commands_decoded", len(out))
 		} else if strings.Join(first, "\n") != strings.Join(lines, "\n") {
@@ -456,7 +524,7 @@ func (x *vf12T) streamP(src string, start, preset int64, b *vf12Buf, want [][][]
 			}
 		}
 	}
-	s.Op(opLine, first...)
+	s.Op(opLine, firstOut...)
 	s.Count("src_" + src)
 	if sok {
 		s.Count("streams_wellformed")
@@ -623,32 +691,55 @@ func (x *vf12T) emitCmds(cs []vf12Cmd, newlines bool) *vf12Buf {
 
 // wargs runs proto.Writer.WriteArgs on the arguments, decodes the bytes with
 // the real decoder, and records the op.
+// vf12Sink is the target's side of a connection: it keeps what the tool writes.
+type vf12Sink struct{ buf bytes.Buffer }
+
+func (c *vf12Sink) Read(p []byte) (int, error)         { return 0, io.EOF }
+func (c *vf12Sink) Write(p []byte) (int, error)        { return c.buf.Write(p) }
+func (c *vf12Sink) Close() error                       { return nil }
+func (c *vf12Sink) LocalAddr() net.Addr                { return &net.TCPAddr{} }
+func (c *vf12Sink) RemoteAddr() net.Addr               { return &net.TCPAddr{} }
+func (c *vf12Sink) SetDeadline(t time.Time) error      { return nil }
+func (c *vf12Sink) SetReadDeadline(t time.Time) error  { return nil }
+func (c *vf12Sink) SetWriteDeadline(t time.Time) error { return nil }
+
+// wargs sends the command the way the tool does — the real conn.RedisConn.Send
+// (send → proto.Writer.WriteArgs) + Flush over a connection whose other end keeps the
+// bytes — and also through a bare proto.Writer; both must produce the same bytes. The
+// bytes are decoded with the real decoder, and the op is recorded for the model.
+// args[0] is the command name (a string, as Send takes it).
 func (x *vf12T) wargs(args []interface{}, toks []string, payload [][]byte) {
 	s := x.s
+	toks = append([]string{}, toks...)
+	payload = append([][]byte{}, payload...)
 	var buf bytes.Buffer
 	w := proto.NewWriter(&buf, vfutil.Pick(x.r, []int{16, 64, 4096, 65536}))
 	if err := w.WriteArgs(args); err != nil {
 		x.t.Fatalf("WriteArgs: %v", err)
 	}
 	w.Flush()
-	// second, independent reader of the same bytes: proto.Reader (the reply reader)
-	if rep, err := proto.NewReader(bytes.NewReader(buf.Bytes()), 4096).ReadReply(); err != nil {
-		s.Violate("wa-protoreader", fmt.Sprintf("proto.Reader cannot read WriteArgs output: %v", err), vf12Replay("wa 0 "+strings.Join(toks, " ")))
-	} else {
-		sl, ok := rep.([]interface{})
-		ok = ok && len(sl) == len(payload)
-		for i := 0; ok && i < len(sl); i++ {
-			str, isStr := sl[i].(string)
-			ok = isStr && str == string(payload[i])
+	wire := buf.Bytes()
+	if name, ok := args[0].(string); ok {
+		sink := &vf12Sink{}
+		rc := conn.VerifNewRedisConn(sink, config.RedisConfig{})
+		if err := rc.Send(name, args[1:]...); err != nil {
+			x.t.Fatalf("RedisConn.Send: %v", err)
 		}
-		if !ok {
-			s.Violate("wa-protoreader", "proto.Reader reads different arguments from WriteArgs output", vf12Replay("wa 0 "+strings.Join(toks, " ")))
+		if err := rc.Flush(); err != nil {
+			x.t.Fatalf("RedisConn.Flush: %v", err)
 		}
-		s.Count("writeargs_read_by_proto_reader")
+		if !bytes.Equal(sink.buf.Bytes(), wire) {
+			s.Violate("send-differs-from-writeargs", "RedisConn.Send puts other bytes on the connection than Writer.WriteArgs of (cmd, args…)",
+				vf12Replay("wa 0 "+strings.Join(toks, " ")))
+		}
+		wire = append([]byte{}, sink.buf.Bytes()...) // what really goes to the target
+		s.Count("writeargs_through_redisconn_send")
 	}
-	// float arguments (zset scores on the snapshot path): the text on the wire must
-	// be the shortest decimal that reads back as exactly the float64 passed
-	if cmds, _, ok := vf12Strict(buf.Bytes()); ok && len(cmds) == 1 && len(cmds[0]) == len(args) {
+	// float arguments (zset scores on the snapshot path): the property asks that the target
+	// reads the same value, i.e. the decimal text on the wire parses back to exactly the
+	// float64 passed. WHICH round-tripping text the writer chooses ('f', 'g', exponent) is not
+	// C12's business: the op carries the writer's own text, the model frames it.
+	if cmds, _, ok := vf12Strict(wire); ok && len(cmds) == 1 && len(cmds[0]) == len(args) {
 		for i, a := range args {
 			var f float64
 			switch v := a.(type) {
@@ -662,17 +753,41 @@ func (x *vf12T) wargs(args []interface{}, toks []string, payload [][]byte) {
 			txt := string(cmds[0][i])
 			back, err := strconv.ParseFloat(txt, 64)
 			same := err == nil && (math.Float64bits(back) == math.Float64bits(f) || (back != back && f != f))
-			if !same || txt != strconv.FormatFloat(f, 'f', -1, 64) {
+			if !same {
 				m := vf12Replay("wa 0 " + strings.Join(toks, " "))
 				m["float_bits"] = fmt.Sprintf("%016x", math.Float64bits(f))
 				m["wire_text"] = txt
-				m["want_text"] = strconv.FormatFloat(f, 'f', -1, 64)
-				s.Violate("wa-float-text", fmt.Sprintf("float argument %v written as %q, which does not read back as the same float64", f, txt), m)
+				m["shortest_f_text"] = strconv.FormatFloat(f, 'f', -1, 64)
+				s.Violate("wa-float-roundtrip", fmt.Sprintf("float argument %v written as %q, which does not read back as the same float64", f, txt), m)
+			}
+			if txt == strconv.FormatFloat(f, 'f', -1, 64) {
+				s.Count("writeargs_float_text_is_shortest_f")
+			} else {
+				s.Count("writeargs_float_text_other_rendering")
+			}
+			if i < len(toks) && strings.HasPrefix(toks[i], "F:") && same {
+				toks[i] = "F:" + vfutil.HexS(txt)
+				payload[i] = []byte(txt)
 			}
 			s.Count("writeargs_float_checked")
 		}
 	}
-	x.back("wa", buf.Bytes(), toks, payload)
+	// second, independent reader of the same bytes: proto.Reader (the reply reader)
+	if rep, err := proto.NewReader(bytes.NewReader(wire), 4096).ReadReply(); err != nil {
+		s.Violate("wa-protoreader", fmt.Sprintf("proto.Reader cannot read WriteArgs output: %v", err), vf12Replay("wa 0 "+strings.Join(toks, " ")))
+	} else {
+		sl, ok := rep.([]interface{})
+		ok = ok && len(sl) == len(payload)
+		for i := 0; ok && i < len(sl); i++ {
+			str, isStr := sl[i].(string)
+			ok = isStr && str == string(payload[i])
+		}
+		if !ok {
+			s.Violate("wa-protoreader", "proto.Reader reads different arguments from WriteArgs output", vf12Replay("wa 0 "+strings.Join(toks, " ")))
+		}
+		s.Count("writeargs_read_by_proto_reader")
+	}
+	x.back("wa", wire, toks, payload)
 	s.Count("writeargs_cases")
 }
 
@@ -929,7 +1044,7 @@ func (x *vf12T) soup() []byte {
 // replay re-runs one recorded op line (dec / wa / en) on the real code.
 func (x *vf12T) replay(op string) bool {
 	f := strings.Fields(op)
-	if len(f) >= 7 && f[0] == "dec" {
+	if len(f) >= 7 && (f[0] == "dec" || f[0] == "decx") {
 		st, _ := strconv.ParseInt(f[2], 10, 64)
 		pre, _ := strconv.ParseInt(f[3], 10, 64)
 		bf := &vf12Buf{}
@@ -950,7 +1065,11 @@ func (x *vf12T) replay(op string) bool {
 		fk, _ := strconv.Atoi(f[5])
 		fseed, _ := strconv.ParseUint(f[6], 10, 64)
 		out, ec := vf12Run(bf.data, st, pre, bs, fk, fseed)
-		x.s.Op(fmt.Sprintf("dec %d %d %d %d %d %d %s", x.idx, st, pre, bs, fk, fseed, bf.Pieces()), vf12Lines(x.idx, out, ec)...)
+		if _, _, sok := vf12Strict(bf.data); sok {
+			x.s.Op(fmt.Sprintf("dec %d %d %d %d %d %d %s", x.idx, st, pre, bs, fk, fseed, bf.Pieces()), vf12Lines(x.idx, out, ec)...)
+		} else {
+			x.s.Op(fmt.Sprintf("decx %d %d %d %d %d %d %s", x.idx, st, pre, bs, fk, fseed, bf.Pieces()), vf12LinesX(x.idx, out, ec)...)
+		}
 		x.idx++
 		x.streamP("replay", st, pre, bf, nil, 9)
 		return true
